@@ -293,6 +293,9 @@ def monCheck (c : Ctx) : Option Clause :=
     (if isSubseq (c.m.nts ++ ntsOf c.toks) c.notifs then none else some .c03Order)
   ]
 
+/-- the client's own requests POSTed in the step -/
+def callsIn (toks : List Tok) : List Nat := (postsOf toks).filterMap (fun p => match p with | .call k => some k | _ => none)
+
 /-- the bookkeeping after the step -/
 def monNext (c : Ctx) : Mon :=
   let m := c.m
@@ -313,7 +316,7 @@ def monNext (c : Ctx) : Mon :=
       | .feed _ chunks => if feeds && m.fed < epEnd && epEnd ≤ fed' then readEnd m.fed chunks epEnd else m.epReadEnd
       | _ => m.epReadEnd),
     started := (match c.op with | .call k _ => if c.toks.contains .nosession then m.started else k :: m.started | _ => m.started),
-    posted := m.posted ++ (postsOf c.toks).filterMap (fun p => match p with | .call k => some k | _ => none),
+    posted := m.posted ++ callsIn c.toks,
     finished := m.finished ++ (donesOf c.toks).map (·.1),
     lists := (match c.op with | .call k true => k :: m.lists | _ => m.lists),
     answered := m.answered ++ (respIdsOf c.toks).map (·.1),
